@@ -329,6 +329,8 @@ pub fn call_size(kind: u8, mag: u16, target: usize) -> usize {
 pub enum Call {
     Put { hash: H, n_chunks: usize, n_bytes: usize, boundaries_ok: bool, max_chunk_len: usize, empty: bool },
     UploadShard { hash: H, n_bytes: usize },
+    /// harness marker (e.g. "finalize-start") placed in the same sequence as the store calls
+    Marker(String),
 }
 
 #[derive(Clone, Debug)]
@@ -388,6 +390,10 @@ impl TraceClient {
     fn end(&self, ci: usize, call: Call, result: Result<u64, String>, fail: bool) {
         let seq = self.seq.fetch_add(1, Ordering::SeqCst);
         self.log.lock().unwrap().push(Event { seq, call_index: ci, start: false, call, result: Some(result), shard_bytes: None, injected_fault: fail });
+    }
+    pub fn mark(&self, what: &str) {
+        let seq = self.seq.fetch_add(1, Ordering::SeqCst);
+        self.log.lock().unwrap().push(Event { seq, call_index: usize::MAX, start: true, call: Call::Marker(what.to_string()), result: None, shard_bytes: None, injected_fault: false });
     }
     async fn delay(&self, ci: usize) {
         if self.plan.delays.is_empty() {
@@ -725,7 +731,9 @@ async fn run_history_async(h: History, mut opts: RunOpts, tp: Arc<ThreadPool>) -
                 results[fi] = Some(r);
             }
         }
+        client.mark("finalize-start");
         let finalize = session.finalize_with_file_info().await.map_err(|e| e.to_string());
+        client.mark("finalize-end");
         let log = std::mem::take(&mut *client.log.lock().unwrap());
         let files: Vec<FileObs> = results
             .into_iter()
